@@ -358,6 +358,71 @@ func runC07(r *mc.Run) {
 		r.Eval(c.id, c.id != "baseline", fmt.Sprintf("%s:want=%v/%s", kindOf(c.id), want, out))
 	})
 	r.SectionDone(mc.Section{Name: "qe-identity-cases", Evaluations: int64(done), Exhaustive: done == len(cases)})
+
+	// quote MESSAGES whose 32-bit isv_svn / isv_prod_id carry more than the 16 bits the PCK-signed report holds: the
+	// signed report decides. Signed ISVSVN 5 (OutOfDate level) / 3 (below every level) / 8 (UpToDate, the control),
+	// message value = signed + k * 65536
+	type mcase struct {
+		signed int
+		add    uint32
+		field  string
+	}
+	var mcases []mcase
+	for _, sg := range []int{8, 5, 3} {
+		for _, k := range []uint32{0, 1, 2, 7, 0x7fff, 0xffff} {
+			mcases = append(mcases, mcase{sg, k << 16, "isv_svn"})
+			if k != 0 {
+				mcases = append(mcases, mcase{sg, k << 16, "isv_prod_id"})
+			}
+		}
+	}
+	doneM := r.Parallel(len(mcases), func(i int) {
+		mc0 := mcases[i]
+		id := fmt.Sprintf("message/signed-isvsvn=%d,%s+=%#x", mc0.signed, mc0.field, mc0.add)
+		if !r.Want(id) {
+			return
+		}
+		p := w.Parts.Clone()
+		baseQE(p.QEReport)
+		binary.LittleEndian.PutUint16(p.QEReport[258:], uint16(mc0.signed))
+		p.SignQE(w.PKI.LeafKey)
+		raw, _ := p.Bytes()
+		q, perr := safeToProto(raw)
+		if perr != nil {
+			r.HarnessError("C07 %s: quote does not parse: %v", id, perr)
+			return
+		}
+		rep := q.GetSignedData().GetCertificationData().GetQeReportCertificationData().GetQeReport()
+		if mc0.field == "isv_svn" {
+			rep.IsvSvn += mc0.add
+		} else {
+			rep.IsvProdId += mc0.add
+		}
+		e := baseID
+		e.TcbLevels = []world.Level{mkLevel(8, "UpToDate"), mkLevel(5, "OutOfDate")}
+		g := w.Getter.Clone()
+		g.Responses[world.URLQeIdentity] = world.Response{Header: w.QeHdr, Body: world.SignedBody("enclaveIdentity", world.MustJSON(e), w.PKI.TcbKey)}
+		o := w.Options(world.L1)
+		o.Getter = g
+		err := world.SafeVerify(q, o)
+		want := mc0.signed == 8 && mc0.add == 0
+		out := verdict(err)
+		switch {
+		case world.IsPanic(err):
+			r.Violate("message:panic:"+crashSite(err), id, "verification crashes: "+errStr(err), nil)
+		case err == nil && mc0.signed != 8:
+			r.Violate("message:accepted-against-signed-isvsvn", id, fmt.Sprintf("quote message accepted although the PCK-signed QE report carries ISVSVN %d, which is not an UpToDate level", mc0.signed), nil)
+			out = "accept!"
+		case err == nil && mc0.add != 0:
+			r.Violate("message:accepted-oversize-field", id, "quote message accepted although "+mc0.field+" does not fit the 16 bits of the signed report", nil)
+			out = "accept!"
+		case err != nil && want:
+			r.Violate("message:control-rejected", id, "the unmodified message with an UpToDate QE is rejected: "+errStr(err), nil)
+			out = "reject!"
+		}
+		r.Eval(id, mc0.add != 0 || mc0.signed != 8, fmt.Sprintf("message:want=%v/%s", want, out))
+	})
+	r.SectionDone(mc.Section{Name: "oversize-message-fields", Evaluations: int64(doneM), Exhaustive: doneM == len(mcases)})
 }
 
 // flipHex flips bit `bit` (byte-major, LSB first) of a hex string.
